@@ -161,6 +161,9 @@ type oInterp struct {
 	// conditions so assumed are collected in pathConds
 	valuation map[string]float64
 	pathConds []string
+	// cmpOracle, when set, is asked first at comparisons the symbolic domain cannot decide (the
+	// driver answers consistently with some total order of the compared terms)
+	cmpOracle func(op token.Token, a, b poly) (bool, bool)
 }
 
 func (it *oInterp) loopLimit() int {
@@ -665,6 +668,13 @@ func (fr *oFrame) structRef(e ast.Expr) *oStruct {
 		}
 	case *ast.IndexExpr:
 		return fr.elemRef(x)
+	case *ast.CallExpr:
+		// a call returning a pointer: f().field = v
+		if vs := fr.call(x); len(vs) == 1 {
+			if p, ok := vs[0].(oPtr); ok {
+				return p.s
+			}
+		}
 	}
 	return nil
 }
@@ -766,7 +776,7 @@ func (fr *oFrame) store(l ast.Expr, v oval, define bool) oCtl {
 			if _, isIface := r.typ.Underlying().(*types.Interface); isIface {
 				v = fr.toIface(v)
 			}
-			*r.cell = fr.rvalue(v)
+			r.storeVal(fr.rvalue(v))
 			return oNormal
 		}
 		dst := fr.structRef(x)
@@ -839,6 +849,16 @@ func oEqual(a, b oval) (eq bool, ok bool) {
 		if _, ok := b.(oNil); ok {
 			return false, true
 		}
+	case oRef:
+		switch y := b.(type) {
+		case oNil:
+			return false, true
+		case oRef:
+			if x.st != nil || y.st != nil {
+				return x.st == y.st && x.field == y.field, true
+			}
+			return x.cell == y.cell, true
+		}
 	case oSym:
 		if q, ok := symOf(b); ok {
 			if eq, ok := symCompare(token.EQL, x.p, q); ok {
@@ -889,7 +909,7 @@ func oEqual(a, b oval) (eq bool, ok bool) {
 		switch y := b.(type) {
 		case oSlice:
 			return y.isNil(), true
-		case oHostFunc, oFunc, oFuncRef, oHost:
+		case oHostFunc, oFunc, oFuncRef, oHost, oRef:
 			return false, true
 		case oMap:
 			return y.keys == nil, true
@@ -1080,7 +1100,7 @@ func (fr *oFrame) eval(e ast.Expr) oval {
 		return oTop{"selector " + src(x)}
 	case *ast.StarExpr:
 		if r, ok := fr.eval(x.X).(oRef); ok {
-			return fr.rvalue(*r.cell)
+			return fr.rvalue(r.load())
 		}
 		if s := fr.structRef(x); s != nil {
 			return s.clone()
@@ -1107,6 +1127,14 @@ func (fr *oFrame) eval(e ast.Expr) oval {
 				if o := objOf(fr.info, id); o != nil {
 					if c := fr.env.lookup(o); c != nil {
 						return oRef{cell: c, typ: o.Type()}
+					}
+				}
+			}
+			if sel, ok := unparen(x.X).(*ast.SelectorExpr); ok {
+				// &x.f for a scalar field
+				if base := fr.structRef(sel.X); base != nil {
+					if _, has := base.fields[sel.Sel.Name]; has {
+						return oRef{st: base, field: sel.Sel.Name, typ: fr.info.TypeOf(sel)}
 					}
 				}
 			}
@@ -1186,6 +1214,11 @@ func (fr *oFrame) eval(e ast.Expr) oval {
 					if rp, ok := symOf(r); ok {
 						if b, ok := symCompare(x.Op, lp, rp); ok {
 							return oBool(b)
+						}
+						if fr.it.cmpOracle != nil {
+							if b, ok := fr.it.cmpOracle(x.Op, lp, rp); ok {
+								return oBool(b)
+							}
 						}
 						if fr.it.valuation != nil {
 							if b, ok := symCompareAt(x.Op, lp, rp, fr.it.valuation); ok {
@@ -1625,8 +1658,22 @@ func (fr *oFrame) call(call *ast.CallExpr) []oval {
 	}
 	var args []oval
 	ps := sig.Params()
-	for i, a := range call.Args {
-		v := fr.eval(a)
+	// f(g()) with g returning several values
+	var spread []oval
+	if len(call.Args) == 1 && ps.Len() > 1 {
+		if tup, ok := fr.info.TypeOf(call.Args[0]).(*types.Tuple); ok && tup.Len() == ps.Len() {
+			spread = fr.evalMulti(call.Args[0])
+		}
+	}
+	for i := 0; i < len(call.Args) || i < len(spread); i++ {
+		var a ast.Expr
+		var v oval
+		if spread != nil {
+			a, v = call.Args[0], spread[i]
+		} else {
+			a = call.Args[i]
+			v = fr.eval(a)
+		}
 		pi := i
 		if sig.Variadic() && pi >= ps.Len()-1 {
 			pi = ps.Len() - 1
@@ -1639,7 +1686,7 @@ func (fr *oFrame) call(call *ast.CallExpr) []oval {
 			v = retag(v, pt)
 			if _, isIface := pt.Underlying().(*types.Interface); isIface {
 				v = fr.toIface(v)
-				if iv, ok := v.(oIface); ok && iv.styp == nil {
+				if iv, ok := v.(oIface); ok && iv.styp == nil && spread == nil {
 					iv.styp = fr.info.TypeOf(a)
 					v = iv
 				}
@@ -2119,6 +2166,24 @@ type oExt struct{ name string }
 type oRef struct {
 	cell *oval
 	typ  types.Type
+	// a pointer to a scalar field of a struct: st.fields[field]
+	st    *oStruct
+	field string
+}
+
+func (r oRef) load() oval {
+	if r.st != nil {
+		return r.st.fields[r.field]
+	}
+	return *r.cell
+}
+
+func (r oRef) storeVal(v oval) {
+	if r.st != nil {
+		r.st.fields[r.field] = v
+		return
+	}
+	*r.cell = v
 }
 
 // retag gives a slice value the named type of the variable, parameter or result it is assigned
